@@ -267,6 +267,8 @@ class C07(Prop):
             yield case
         for c in self.gen_m2m_family(rng, 30 if tier == 'quick' else 1000):
             yield c
+        for _ in range(12 if tier == 'quick' else 400):
+            yield proggen.sp_then_touch_case(rng)
 
     def gen_m2m_family(self, rng, n):
         """every transaction changes several pairs in 2-3 flushes, pairs are unlinked and re-linked within one transaction"""
